@@ -8,7 +8,7 @@ PROPS_FILE = "Props/C16.v"
 MANIFEST = dict(
     text="Coq theorems over the model of the two scheduling loops (Model/Sched.v): C16_full (for every oracle, every "
          "k, every graph and failing set: after every prefix of the start/finish log, #launched <= #finished + k), "
-         "C16_sync (the sequential loop has at most one job started and unfinished). C16_refuted: false for the model "
+         "C16_full_total (fuel >= |jobs|+2, k >= 1: the run has ended, Finished or Stalled, and the bound holds over its complete log), C16_sync (the sequential loop has at most one job started and unfinished). C16_refuted: false for the model "
          "of the code as pinned (finding F16: jobs seen running leave `queued`, the tasks[:k] truncation then admits "
          "k more) — repaired in /repo by a fix: commit. Tie: controlled fake worker (model = implementation on every "
          "poll / launch / log); plus real process-pool runs whose bodies record enter/leave timestamps (measured "
